@@ -128,7 +128,12 @@ def cases(draw, max_leaves=8, max_genes=24):
         'gene_list': gl,
         'n_valid': draw(st.integers(1, n_genes)),
         'exact': draw(st.sampled_from([False, False, True])),
-        'runs': [draw(run_cfg()), draw(run_cfg())],
+        # two configurations per route; half of the time a contrast pair: one worker with a generous budget
+        # against several workers with a budget at (or near) the enforced minimum
+        'runs': [draw(run_cfg()), draw(run_cfg())] if draw(st.booleans()) else
+                [{'n_processors': 1, 'max_gb': 20, 'n_per': draw(st.sampled_from([8, 10000]))},
+                 {'n_processors': draw(st.integers(2, 3)), 'max_gb': draw(st.sampled_from([1e-7, 1e-6, 1e-5])),
+                  'n_per': draw(st.sampled_from([8, 16]))}],
         'routes': routes,
         'rename': rename,
     }
